@@ -691,6 +691,10 @@ class RefBuild:
         if not okay:
             m.tolerate_now.discard(X)
             m.failed[X] = True
+            if not m.exists(X):
+                # (only remembered, for the signature of an over-build: the failed rebuild of a REMOVED target tells its
+                # dependents "changed" -- known finding F-C03-removed-then-failed)
+                m.failed_while_removed = getattr(m, "failed_while_removed", frozenset()) | {X}
             m.built[X] = m.built.get(X, False)
             self.done[X] = "fail"
             m.interrupted.discard(X)
